@@ -185,6 +185,19 @@ theorem noPanic_clientExtWalk (bs : List UInt8) (s : String) : runBuf Dtls.clien
 theorem noPanic_serverExtWalk (bs : List UInt8) (s : String) : runBuf Dtls.serverExtWalk bs ≠ .panic s :=
   safe_noPanic (Dtls.serverExtWalk_safe _) s
 
+/-- the 16-bit handshake message counter of `process_handshake_payload` (after the `fix:` commit): any number of
+accepted in-order messages never panics and never leaves `u16` — exhaustion is a handshake error. -/
+theorem handshake_seq_counter_total (k s0 : Nat) (b : Buf) (n : Nat) (site : String) (hs : s0 ≤ 65535) :
+    Dtls.seqRun k s0 b n ≠ .panic site :=
+  safe_noPanic (Dtls.seqRun_safe k s0 b n hs) site
+
+/-- witness kept visible: the pre-fix `recv_message_seq += 1` panics at 65535 with overflow checks and wraps to 0
+(accepting old sequence numbers again) without. -/
+theorem handshake_seq_counter_unfixed_witness :
+    (Dtls.seqAdvanceUnfixed true 65535 (Buf.ofList []) 0).isPanic = true ∧
+    (match Dtls.seqAdvanceUnfixed false 65535 (Buf.ofList []) 0 with | .ok r _ _ => decide (r = 0) | _ => false) = true := by
+  decide +kernel
+
 /-- non-vacuity / witness kept from before the fix: a 34-byte ClientHello body is now an error, not a panic;
 reading the session-id length without the check (`getU8` on an empty buffer) is the panic the code had. -/
 example : (runBuf Dtls.clientHelloDecode (List.replicate 34 0)).isPanic = false := by decide +kernel
